@@ -44,7 +44,7 @@ Section NSPGeneral.
     intros Hd Hpq a.
     rewrite (filter_ext q (fun v => p v || (q v && negb (p v)))).
     2:{ intros v. destruct (p v) eqn:E; simpl; [apply Hpq, E | rewrite andb_true_r; reflexivity]. }
-    rewrite (wmc_ext S laws w _ phi (fun a => phi a && true)) by (intros; rewrite andb_true_r; reflexivity).
+    rewrite (wmc_ext S w _ phi (fun a => phi a && true)) by (intros; rewrite andb_true_r; reflexivity).
     rewrite (wmc_product S laws w p (fun v => q v && negb (p v)) phi (fun _ => true)).
     - rewrite wmc_true. reflexivity.
     - intros v H1 H2. rewrite H1 in H2. rewrite andb_false_r in H2. discriminate.
@@ -138,13 +138,13 @@ Section NSPGeneral.
       cbn [ModelCircuit.wmc]. rewrite !evalb_lit. unfold upd. rewrite !Nat.eqb_refl. simpl. destruct b; simpl; ring.
     - inversion Hdec as [| | |? HdF HdP|]; subst. inversion Hdet as [| | |? HtF|]; subst.
       rewrite nsp_and. cbn [fst]. rewrite tvars_and in *.
-      rewrite (wmc_ext S laws w _ (fun a => evalb a (NAnd l)) (fun a => forallb (evalb a) l)) by (intros; apply evalb_and).
+      rewrite (wmc_ext S w _ (fun a => evalb a (NAnd l)) (fun a => forallb (evalb a) l)) by (intros; apply evalb_and).
       apply (and_case_gen U (fun t => fst (nsp t))); [|exact HdP].
       rewrite Forall_forall in *. intros x Hx a0. apply IH; auto.
       intros v Hv. apply Hincl, in_flat_map. exists x. split; assumption.
     - inversion Hdec as [| | | |? HdF]; subst. inversion Hdet as [| | | |? HtF HtP]; subst.
       rewrite nsp_or. cbn [fst]. rewrite tvars_or in *.
-      rewrite (wmc_ext S laws w _ (fun a => evalb a (NOr l)) (fun a => existsb (evalb a) l)) by (intros; apply evalb_or).
+      rewrite (wmc_ext S w _ (fun a => evalb a (NOr l)) (fun a => existsb (evalb a) l)) by (intros; apply evalb_or).
       set (used := flat_map (fun t => snd (nsp t)) l).
       assert (Hused : forall v, memb used v = memb (flat_map tvars l) v).
       { intros v. apply memb_iff. apply nsp_used_flat. }
@@ -176,7 +176,7 @@ Section NSPGeneral.
     forall a, c_eval_nsp S w U C = wmc U (fun a => c_evalb a C) a.
   Proof.
     intros ND Hincl Hd Ht a. unfold c_eval_nsp. rewrite (root_val_fold (alg_nsp S w)).
-    rewrite (wmc_ext S laws w _ (fun a => c_evalb a C) (fun a => evalb a (root_tree C))) by (intros; apply c_evalb_tree).
+    rewrite (wmc_ext S w _ (fun a => c_evalb a C) (fun a => evalb a (root_tree C))) by (intros; apply c_evalb_tree).
     apply nsp_general_tree; assumption.
   Qed.
 End NSPGeneral.
